@@ -204,6 +204,8 @@ class ParentTranslator:
     def ref_assigns(self, parent, copy=False):
         result = []
         for k, v in parent.refs.items():
+            if k in getattr(parent, "cells", ()):
+                continue    # Cells take precedence over global references
             if k[0] != "_":
                 if copy:
                     result.append('self.' + k + ' = other.' + k)
@@ -220,7 +222,7 @@ class ParentTranslator:
     def ref_copies(self, parent):
         result = []
         for k, v in parent.refs.items():
-            if k[0] == "_":
+            if k[0] == "_" or k in getattr(parent, "cells", ()):
                 continue
 
             base_k = 'base.' + k
